@@ -302,6 +302,20 @@ fn build_sparse(len: usize, positions: &[usize], multiset: bool) -> SparseVector
     SparseVector::try_from(bld).unwrap()
 }
 
+// low.width of a SparseVector, read from its serialized elements:
+// [len] ++ bitvector(ones, raw(len, nwords, words), 3 options) ++ intvector(len, width, ..)
+fn sparse_width(sv: &SparseVector) -> u64 {
+    let ser = crate::bvgen::serialize_elems(sv);
+    let mut p = 3; // len, ones, raw len
+    let nwords = ser[p] as usize;
+    p += 1 + nwords;
+    for _ in 0..3 {
+        let sz = ser[p] as usize;
+        p += 1 + sz;
+    }
+    ser[p + 1]
+}
+
 fn build_rl(len: usize, runs: &[(usize, usize)]) -> RLVector {
     let mut bld = RLBuilder::new();
     for (s, l) in runs {
@@ -432,8 +446,22 @@ fn emit_seq(out: &mut Out, kind: &str, c: &Content, skip_risky: bool) {
     out.stat(&format!("c09.seq.{}", kind));
     let cterm = content_term(c);
     let cjson = content_json(c);
+    // the low width the crate chose for the sparse vector (the model's oracle argument)
+    let sw: Option<u64> = match built.sv.as_ref() {
+        Some(sv) => match catch(|| sparse_width(sv)) {
+            Res::Ok(w) => Some(w),
+            Res::Panic(_, _) => None,
+        },
+        None => None,
+    };
+    if let Some(w) = sw {
+        out.stat(&format!("c09.sparse_width.{:02}", w));
+    }
     for chunk in qs.chunks(CHUNK) {
-        let mut term = format!("CSeq {} {} {} [", PATH, b(DBG), cterm);
+        let mut term = match sw {
+            Some(w) => format!("CSeqS {} {} {} {} [", w, PATH, b(DBG), cterm),
+            None => format!("CSeq {} {} {} [", PATH, b(DBG), cterm),
+        };
         let mut calls = String::from("[");
         let mut panics = String::from("[");
         let mut npan = 0;
